@@ -115,7 +115,19 @@ func genC15World(r *lib.Rng) *c15World {
 	nV := 2 + r.Intn(4)
 	for i := 0; i < nV; i++ {
 		v := c15Var{name: fmt.Sprintf("v%d", i)}
-		switch r.Intn(7) {
+		switch r.Intn(9) {
+		case 7:
+			// an array of a parenthesised union
+			t1, t2 := anyName(), anyName()
+			v.typ, v.roots = "("+t1+" | "+t2+")[]", []string{t1, t2}
+			v.query = fmt.Sprintf("e%d", i)
+			v.extra = fmt.Sprintf("local e%d = v%d[1]", i, i)
+		case 8:
+			// an array of maps
+			t := anyName()
+			v.typ, v.roots = "table<string, "+t+">[]", []string{t}
+			v.query = fmt.Sprintf("e%d", i)
+			v.extra = fmt.Sprintf("local e%d = v%d[1].somekey", i, i)
 		case 5, 6:
 			// the wrapper is reached through an alias (possibly an alias of an alias)
 			t := anyName()
@@ -182,7 +194,12 @@ func (w *c15World) render() (map[string]string, map[string][]string) {
 				// no statement and no blank line: the next annotation of this file continues the same comment block
 				// (several ---@class statements in one block)
 			} else {
-				l = append(l, fmt.Sprintf("local %s_%d = {}", c.name, di), "")
+				if (len(l)+di)%3 == 1 {
+					// a trailing comment on the statement, and the next annotation block starts on the very next line
+					l = append(l, fmt.Sprintf("local %s_%d = {} -- holder of %s", c.name, di, c.name))
+				} else {
+					l = append(l, fmt.Sprintf("local %s_%d = {}", c.name, di), "")
+				}
 			}
 			lines[d.file] = l
 		}
@@ -195,7 +212,11 @@ func (w *c15World) render() (map[string]string, map[string][]string) {
 		lines[f] = append(lines[f], l, "")
 	}
 	m := lines["main.lua"]
-	for _, v := range w.vars {
+	for vi, v := range w.vars {
+		if vi%2 == 0 {
+			// a statement with a trailing comment directly above the annotation
+			m = append(m, fmt.Sprintf("local cnt%d = %d -- counter %d", vi, vi, vi))
+		}
 		m = append(m, "---@type "+v.typ, "local "+v.name+" = {}")
 		if v.extra != "" {
 			m = append(m, v.extra)
